@@ -431,6 +431,11 @@ class Ctx:
         code = 0
         for h in self.known_hits:
             lines.append(f'KNOWN-FINDING: property={self.pid} {h["what"]} [{h["signature"]}]')
+        # every listed (open) finding of this property gets its line; those the inputs of this run (tier / seed) did not reach are marked as such
+        hit = {h['signature'] for h in self.known_hits}
+        for k in self.known:
+            if k.get('status', 'open') == 'open' and k.get('signature') not in hit:
+                lines.append(f'KNOWN-FINDING: property={self.pid} {k.get("what", "")} [{k.get("signature")}] (listed; not reached by the inputs of this run)')
         if self.violations:
             code = 1
             for v in self.violations[:10]:
